@@ -57,6 +57,15 @@ a tree of `let` / `Option.bind` / `if` / `match` nodes in SSA (state-passing) fo
     `self.<field>.remove_value(); self` and the field's type in the struct's own file).  A callee compiled in the same run passes its externs
     on to its callers (recorded in a `-- SIG` line next to the definition so that a caller still compiles against a snapshot); next to every
     definition of such a unit a tactic `gen_unfold_<name>` unfolds it together with whatever was lifted out of it.
+  * `&mut self` methods (`mut_self`: `NumberingFormats::set_style`): state passing over the fields of `self` that are inside the fragment
+    (the result is the tuple of their final versions, then the value if there is one: `pack`); `HashMap<K, V>` is the list of its entries in
+    the (unspecified) iteration order (`rt_map_insert / rt_map_get / rt_map_contains`, `.iter() / .values() / .keys()`; a loop over it must
+    be order-insensitive: a search `if c { return e; }` or a running maximum / minimum); a `for` loop with `return` in its body is
+    `rt_foldl_ret` (stops at the first result); `.find / .filter / .any / .position` with a predicate closure (`rt_position`), `.count()`;
+    plain structs as Lean structures (`t_record`, `records`: getters / setters resolved by reading their bodies), sibling `&mut self` methods
+    (`self_methods`), `param_subst`, `local_types`, `narrowing_casts` (`usize as u32` without the truncation); `o.unwrap_or_else(f)` for a
+    translated `f` that cannot panic; arithmetic on two unsuffixed literals in a context of known integer type; `match` / `if let` statements
+    with an arm that leaves the function (the rest of the block continues in the arms that fall through); tuple patterns.
 
 Anything else raises `Unsupported`: the committed snapshot of that definition is kept and the item is reported under
 "fallbacks" (not a violation; the tie for it falls back to the correspondence check alone).
@@ -106,10 +115,12 @@ def lean_type(t):
         if t[0] in ("opt", "res"): return f"Option ({lean_type(t[1])})" if t[1] != "?" else "Option Unit"
         if t[0] == "enum": return t[1] + "_tag"
         if t[0] == "tuple": return "(" + " × ".join(lean_type(x) for x in t[1]) + ")"
-        if t[0] in ("list", "iter"): return f"List ({lean_type(t[1])})"
+        if t[0] in ("list", "iter", "miter"): return f"List ({lean_type(t[1])})"
         if t[0] == "opaque": return "Unit"
         if t[0] == "abs": return t[1]
         if t[0] == "enumv": return "(" + " ".join([t[1] + "_val"] + ENUMV[t[1]]["params"]) + ")"
+        if t[0] == "map": return f"List ({lean_type(t[1])} × {lean_type(t[2])})"
+        if t[0] == "rec": return t[1] + "_rec"
     raise Unsupported(f"type {t}")
 
 
@@ -126,6 +137,8 @@ class Fn:
         self.loop_k = []            # continuations of the enclosing `for` bodies (`continue`)
         self.draws = {}             # random generator -> number of draws so far (source order)
         self.depth_loop = 0         # > 0 inside a lifted closure / loop body
+        self.state_fields = []      # `&mut self` method: the fields threaded through (state passing)
+        self.loop_ret = None        # inside a lifted loop body: how `return e` leaves the loop
 
     # ---------------------------------------------------------------- names and types
     def fresh(self, base):
@@ -150,7 +163,9 @@ class Fn:
         if name in ("String", "str") or name in self.unit.str_generics: return "str"
         if name == "Option": return ("opt", self.conv_type(args[0]))
         if name in ("Box", "Cow"): return self.conv_type(args[-1])
-        if name == "Vec": return ("list", self.conv_type(args[0]))
+        if name in ("Vec", "ThinVec"): return ("list", self.conv_type(args[0]))
+        if name == "HashMap" and len(args) == 2: return ("map", self.conv_type(args[0]), self.conv_type(args[1]))
+        if name in self.unit.spec.get("records", {}): return ("rec", name)
         if name == "NaiveDateTime": return "datetime"
         if name in self.unit.enums: return ("enum", name)
         return ("opaque", name)
@@ -370,6 +385,8 @@ class Fn:
             _, pat, ty, e, _mut = s
             if e is None: raise Unsupported("let without initialiser")
             want = self.conv_type(ty) if ty is not None else None
+            if want is None and pat[0] == "pbind" and pat[1] in self.unit.spec.get("local_types", {}):
+                want = self.unit.spec["local_types"][pat[1]]      # an unsuffixed literal whose type Rust infers from later uses
             if e[0] == "match" and pat[0] == "pbind" and any(self.arm_diverges(b) for _, _, b in e[2]):
                 # `let x = match s { P => v, Q => return r };`: the rest of the block continues in the arms that have a value
                 if self.depth > 0: raise Unsupported("return inside a nested value block")
@@ -494,10 +511,61 @@ class Fn:
                 pre.append(("bind", n, new) if mon else ("let", n, xt, new))
                 env = dict(env); env[x] = (n, xt)
                 return self.wrap(pre, self.lower_stmts(rest, tail, env, k))
+            if e[0] == "mcall" and e[1][0] == "path" and len(e[1][1]) == 1 and e[1][1][0] in env and isinstance(env[e[1][1][0]][1], tuple) \
+                    and env[e[1][1][0]][1][0] == "rec" and len(e[4]) == 1:
+                # `x.set_f(v);` on a local record: a new version of `x` with the field replaced (the setter's body is checked)
+                x = e[1][1][0]; xt = env[x][1]
+                fld = self.unit.record_setter(xt[1], e[2])
+                if fld is None: raise Unsupported(f"method {xt[1]}::{e[2]} is not a plain setter")
+                ft = RECS[xt[1]]["fields"][fld]
+                pre = []
+                v, vt = self.expr(e[4][0], env, pre, ft); v, vt = self.coerce(v, vt, ft)
+                n = self.fresh(x)
+                pre.append(("let", n, xt, f"{{ {env[x][0]} with {fld} := {v} }}"))
+                env = dict(env); env[x] = (n, xt)
+                return self.wrap(pre, self.lower_stmts(rest, tail, env, k))
+            if e[0] == "mcall" and e[1][0] == "field" and e[1][1] == ("path", ["self"]) and ("self." + e[1][2]) in env and self.state_fields:
+                key = "self." + e[1][2]; mt = env[key][1]
+                pre = []
+                if isinstance(mt, tuple) and mt[0] == "map" and e[2] == "insert" and len(e[4]) == 2:
+                    a, at = self.expr(e[4][0], env, pre, mt[1]); a, at = self.coerce(a, at, mt[1])
+                    b, bt = self.expr(e[4][1], env, pre, mt[2]); b, bt = self.coerce(b, bt, mt[2])
+                    new = f"(rt_map_insert {env[key][0]} {a} {b})"
+                elif isinstance(mt, tuple) and mt[0] == "list" and e[2] == "push" and len(e[4]) == 1:
+                    a, at = self.expr(e[4][0], env, pre, mt[1]); a, at = self.coerce(a, at, mt[1])
+                    new = f"({env[key][0]} ++ [{a}])"
+                else:
+                    raise Unsupported(f"self.{e[1][2]}.{e[2]}(..) as a statement")
+                n = self.fresh(e[1][2])
+                pre.append(("let", n, mt, new))
+                env = dict(env); env[key] = (n, mt)
+                return self.wrap(pre, self.lower_stmts(rest, tail, env, k))
+            if e[0] == "mcall" and e[1] == ("path", ["self"]) and e[2] in self.unit.spec.get("self_methods", {}) and self.state_fields:
+                # `self.m(args);` for a translated `&mut self` method `m` that returns nothing we use: state in, state out
+                lean_name, ptys = self.unit.spec["self_methods"][e[2]]
+                if len(ptys) != len(e[4]): raise Unsupported(f"call of self.{e[2]}: arity")
+                if SIGS.get(lean_name, {}).get("plain") is not True: raise Unsupported(f"self.{e[2]}: the callee is not available as a plain state transformer")
+                pre = []
+                vs = [env["self." + f][0] for f in self.state_fields]
+                for a, pt in zip(e[4], ptys):
+                    v, vt = self.expr(a, env, pre, pt); v, vt = self.coerce(v, vt, pt); vs.append(v)
+                env = dict(env)
+                if len(self.state_fields) == 1:
+                    f = self.state_fields[0]; n = self.fresh(f)
+                    pre.append(("let", n, env["self." + f][1], f"({lean_name} " + " ".join(vs) + ")")); env["self." + f] = (n, env["self." + f][1])
+                else:
+                    st = self.fresh("self_st")
+                    pre.append(("let", st, ("tuple", [env["self." + f][1] for f in self.state_fields]), f"({lean_name} " + " ".join(vs) + ")"))
+                    for i, f in enumerate(self.state_fields):
+                        n = self.fresh(f); proj = ".2" * i + (".1" if i < len(self.state_fields) - 1 else "")
+                        pre.append(("let", n, env["self." + f][1], f"{st}{proj}")); env["self." + f] = (n, env["self." + f][1])
+                return self.wrap(pre, self.lower_stmts(rest, tail, env, k))
             if e[0] == "match":
                 # a `match` statement: like `if`, the outer variables its arms assign are its value
-                if any(self.arm_diverges(b) for _, _, b in e[2]):
-                    if self.depth > 0: raise Unsupported("return inside a nested value block")
+                if any(self.arm_diverges(b) or self.has_return(b) for _, _, b in e[2]):
+                    # an arm leaves the function / the iteration (`match` / `if let` with `return` / `continue`, possibly nested in the arm):
+                    # the rest of the block continues in every arm that falls through (with the versions of the variables that arm has produced)
+                    if self.depth > self.depth_loop: raise Unsupported("return inside a nested value block")
                     outer = lambda env2, _v: self.lower_stmts(rest, tail, {x: env2[x] for x in env}, k)
                     pre = []
                     sv, arms = self.match_arms(e, env, pre, outer)
@@ -577,19 +645,88 @@ class Fn:
             return (f"(List.range {b})" if a == "0" else f"(rt_range {a} {b})"), at
         v, vt = self.expr(it, env, pre)
         if isinstance(vt, tuple) and vt[0] in ("iter", "list"): return v, vt[1]
+        if isinstance(vt, tuple) and vt[0] == "map":
+            self.iter_is_map = True          # a HashMap: the list stands for its entries in the (unspecified) iteration order
+            return v, ("tuple", [vt[1], vt[2]])
         raise Unsupported(f"for over {vt}")
+
+    @staticmethod
+    def has_return(node):
+        if isinstance(node, tuple):
+            if len(node) == 2 and node[0] == "return": return True
+            if node and node[0] == "closure": return False
+            return any(Fn.has_return(x) for x in node)
+        if isinstance(node, list): return any(Fn.has_return(x) for x in node)
+        return False
+
+    def check_order_insensitive(self, body):
+        """the body of a loop over a HashMap (iteration order unspecified): only a search `if C { return E; }` and running maxima /
+        minima `if x < e { x = e; }` are accepted; anything else could depend on the order"""
+        _, stmts, tail = body
+        if tail is not None: stmts = list(stmts) + [("expr", tail)]
+        for st in stmts:
+            ok = False
+            if st[0] == "expr" and st[1][0] == "if" and st[1][3] is None:
+                _, c, then, _ = st[1]
+                ts = list(then[1]) + ([("expr", then[2])] if then[2] is not None else [])
+                if len(ts) == 1 and ts[0][0] == "expr" and ts[0][1][0] == "return": ok = True
+                strip = lambda e: strip(e[1]) if e[0] == "paren" else strip(e[2]) if e[0] == "unary" and e[1] in ("&", "*", "&mut") else e
+                if len(ts) == 1 and ts[0][0] == "assign" and ts[0][2] == "=" and c[0] == "binary" and c[1] in ("<", ">", "<=", ">="):
+                    x, y = strip(ts[0][1]), strip(ts[0][3])
+                    a, b = strip(c[2]), strip(c[3])
+                    if (a, b) in ((x, y), (y, x)): ok = True
+            if not ok: raise Unsupported("iteration over a HashMap whose effect may depend on the (unspecified) order")
+
+    def lower_for_ret(self, s, rest, tail, env, k, pre, seq, elt, names, lp, from_map):
+        """a `for` loop with `return` in its body: the lifted body yields (Some(result) | None, state); the fold stops at the first
+        `Some` (`rt_foldl_ret`), and the function returns that result or goes on with the final state"""
+        _, pat, it, body = s
+        if self.depth > 0 or self.loop_ret is not None: raise Unsupported("return out of a nested loop / value block")
+        if from_map: self.check_order_insensitive(body)
+        R = self.ret_ty
+        state = lambda e3: "()" if not names else e3[names[0]][0] if len(names) == 1 else "(" + ", ".join(e3[x][0] for x in names) + ")"
+        def k_of(g):
+            def kb(env3, _v): return ("ret", f"(none, {state(env3)})")
+            def kr(env3, e):
+                if e[1] is None: raise Unsupported("return without a value out of a loop")
+                pre2 = []
+                v, vt = g.expr(e[1], env3, pre2, R); v, vt = g.coerce(v, vt, R)
+                return g.wrap(pre2, ("ret", f"(some {v}, {state(env3)})"))
+            g.loop_k = [kb]; g.loop_ret = kr; g.ret_ty = R
+            return kb
+        st_ty = "unit" if not names else env[names[0]][1] if len(names) == 1 else ("tuple", [env[x][1] for x in names])
+        params = [(x, env[x][1]) for x in names] + lp
+        call, _rty, mon = self.lift("loop", params, body, {x: v for x, v in env.items() if x not in names}, k_of, state_ty=("tuple", [("opt", R), st_ty]))
+        if mon: raise Unsupported("early return from a loop whose body can panic")
+        st_args = "" if not names else " st" if len(names) == 1 else "".join(" st" + ".2" * i + (".1" if i < len(names) - 1 else "") for i in range(len(names)))
+        x_args = " x" if len(lp) == 1 else "".join(" x" + ".2" * i + (".1" if i < len(lp) - 1 else "") for i in range(len(lp)))
+        call_txt = f"(fun (st : {lean_type(st_ty)}) x => {call}{st_args}{x_args})"
+        lr = self.fresh("lr"); r = self.fresh("r")
+        pre.append(("let", lr, ("tuple", [("opt", R), st_ty]), f"(rt_foldl_ret {call_txt} {state(env)} {seq})"))
+        env2 = dict(env); post = []
+        for i, x in enumerate(names):
+            n = self.fresh(x)
+            proj = f"{lr}.2" + ("" if len(names) == 1 else ".2" * i + (".1" if i < len(names) - 1 else ""))
+            post.append(("let", n, env[x][1], proj)); env2[x] = (n, env[x][1])
+        found = ("ret", self.pack(env, r))
+        return self.wrap(pre, ("match", f"{lr}.1", [(f"some {r}", found), ("none", self.wrap(post, self.lower_stmts(rest, tail, env2, k)))]))
 
     def lower_for(self, s, rest, tail, env, k):
         """`for pat in seq { body }` = a left fold over the sequence; the state is the tuple of the outer variables the body assigns"""
         _, pat, it, body = s
         pre = []
+        self.iter_is_map = False
         seq, elt = self.iter_expr(it, env, pre)
+        from_map = self.iter_is_map
         names = [x for x in self.assigned(body, None, set(self.pat_names(pat))) if x in env]
         if pat[0] == "pbind": lp = [(pat[1], elt)]
         elif pat[0] == "pwild": lp = [("_x", elt)]
         elif pat[0] == "ptuple" and isinstance(elt, tuple) and elt[0] == "tuple" and len(elt[1]) == len(pat[1]) and all(q[0] in ("pbind", "pwild") for q in pat[1]):
             lp = [((q[1] if q[0] == "pbind" else f"_x{i}"), t) for i, (q, t) in enumerate(zip(pat[1], elt[1]))]
         else: raise Unsupported("for pattern")
+        if self.has_return(body):
+            return self.lower_for_ret(s, rest, tail, env, k, pre, seq, elt, names, lp, from_map)
+        if from_map: self.check_order_insensitive(body)
         params = [(x, env[x][1]) for x in names] + lp
         def k_of(g):
             def kb(env3, _v):
@@ -747,16 +884,24 @@ class Fn:
             return x, pre, v, mon
         return None
 
+    def pack(self, env, v):
+        """the result of a state-passing method: the current versions of the fields of `self`, then the value"""
+        if not self.state_fields: return v if v is not None else "()"
+        parts = [env["self." + f][0] for f in self.state_fields] + ([v] if v is not None else [])
+        return parts[0] if len(parts) == 1 else "(" + ", ".join(parts) + ")"
+
     def lower_return(self, e, env):
+        if self.loop_ret is not None and self.depth == 1:
+            return self.loop_ret(env, e)
         if self.depth > 0: raise Unsupported("return inside a nested value block")
         if getattr(self, "mutret", None) is not None:
             if e[1] is not None: raise Unsupported("return with a value in a function with a `&mut` parameter")
             return ("ret", env[self.mutret][0])
-        if e[1] is None: return ("ret", "()")
+        if e[1] is None: return ("ret", self.pack(env, None))
         pre = []
         v, vt = self.expr(e[1], env, pre, self.ret_ty)
         v, vt = self.coerce(v, vt, self.ret_ty)
-        return self.wrap(pre, ("ret", v))
+        return self.wrap(pre, ("ret", self.pack(env, v)))
 
     # ---------------------------------------------------------------- expressions
     def coerce(self, v, vt, want):
@@ -843,6 +988,11 @@ class Fn:
         if k == "pbind":
             n = self.fresh(pat[1]); e2 = dict(env); e2[pat[1]] = (n, "i32" if sty == "int?" else sty)
             return n, e2
+        if k == "ptuple" and isinstance(sty, tuple) and sty[0] == "tuple" and len(sty[1]) == len(pat[1]):
+            outs, e2 = [], env
+            for q, t in zip(pat[1], sty[1]):
+                tx, e2 = self.pattern(q, t, e2); outs.append(tx)
+            return "(" + ", ".join(outs) + ")", e2
         if k == "ppath":
             segs, subs = pat[1], pat[2]
             if segs == ["None"] and isinstance(sty, tuple) and sty[0] == "opt": return "none", env
@@ -1007,6 +1157,8 @@ class Fn:
                     return (f"(decide ({a} {sym} {b}))", "bool")
                 if at == "bool" and op in ("==", "!="): return (f"({a} {op} {b})", "bool")
                 raise Unsupported(f"comparison on {at}")
+            if at == "int?" and bt == "int?" and want in INTS:
+                at = bt = want                       # two unsuffixed literals in a context of known integer type (`const X: u32 = 26 * 26`)
             return self.arith(op, a, at, b, bt, pre, self.lit_of(e[3]))
         if k == "cast":
             dst = self.conv_type(e[2])
@@ -1023,6 +1175,7 @@ class Fn:
                 return (f"(rt_f64_as_i64 {v})", "i64")
             if vt == "i32" and dst == "i64": return (v, dst)
             if vt in UNSIGNED and dst in UNSIGNED and UNSIGNED.index(vt) <= UNSIGNED.index(dst): return (v, dst)
+            if vt == "usize" and dst == "u32" and self.unit.spec.get("narrowing_casts"): return (v, dst)   # truncation not modelled (as `+` overflow)
             if vt in UNSIGNED and dst in UNSIGNED: return (f"({v} % {2 ** BITS[dst]})", dst)       # truncating cast
             if vt == "char" and dst == "u16": return (f"(Char.toNat {v} % 65536)", dst)
             if vt in UNSIGNED and dst == "i64": return (f"(Int.ofNat {v})", dst)
@@ -1263,6 +1416,34 @@ class Fn:
             if can_panic:
                 n = self.fresh("t"); pre.append(("bind", n, call)); return (n, rty)
             return (call, rty)
+        if isinstance(rt, tuple) and rt[0] == "rec" and not args:
+            fld = self.unit.record_getter(rt[1], name)
+            if fld is not None: return (f"{r}.{fld}", RECS[rt[1]]["fields"][fld])
+        if isinstance(rt, tuple) and rt[0] == "map":
+            if name == "contains_key" and len(args) == 1:
+                a, at = self.expr(args[0], env, pre, rt[1]); a, at = self.coerce(a, at, rt[1])
+                return (f"(rt_map_contains {r} {a})", "bool")
+            if name == "get" and len(args) == 1:
+                a, at = self.expr(args[0], env, pre, rt[1]); a, at = self.coerce(a, at, rt[1])
+                return (f"(rt_map_get {r} {a})", ("opt", rt[2]))
+            if name == "iter" and not args: self.iter_is_map = True; return (r, ("miter", ("tuple", [rt[1], rt[2]])))
+            if name == "values" and not args: return (f"(List.map Prod.snd {r})", ("miter", rt[2]))
+            if name == "keys" and not args: return (f"(List.map Prod.fst {r})", ("miter", rt[1]))
+            if name == "len" and not args: return (f"(List.length {r})", "usize")
+        if isinstance(rt, tuple) and rt[0] in ("iter", "miter", "list") and len(args) == 1 and args[0][0] == "closure" and name in ("find", "filter", "any", "position"):
+            # adapters with a predicate; on the entries of a HashMap (`miter`) `find` / `position` depend on the unspecified order only
+            # when several entries satisfy the predicate: translated relative to the order the list stands for
+            params, app = self.closure_params(args[0], rt[1])
+            call, cty, mon = self.lift("closure", params, args[0][2], env)
+            if mon or cty != "bool": raise Unsupported(f".{name}() with a closure that can panic / is not a predicate")
+            if name == "find": return (f"(List.find? (fun x => {call}{app}) {r})", ("opt", rt[1]))
+            if name == "filter": return (f"(List.filter (fun x => {call}{app}) {r})", (rt[0] if rt[0] != "list" else "iter", rt[1]))
+            if name == "any": return (f"(List.any {r} (fun x => {call}{app}))", "bool")
+            if name == "position":
+                if rt[0] == "miter": raise Unsupported("position in a HashMap")
+                return (f"(rt_position (fun x => {call}{app}) {r})", ("opt", "usize"))
+        if isinstance(rt, tuple) and rt[0] in ("iter", "miter") and name == "count" and not args: return (f"(List.length {r})", "usize")
+        if isinstance(rt, tuple) and rt[0] == "list" and name == "len" and not args: return (f"(List.length {r})", "usize")
         if name in self.unit.spec.get("transparent_methods", ()) and rt == "str" and not args: return (r, rt)
         is_seq = isinstance(rt, tuple) and rt[0] in ("iter", "list")
         if name == "chars" and rt == "str" and not args: return (r, ("iter", "char"))
@@ -1320,6 +1501,18 @@ class Fn:
             return (f"(rt_parse_i32 {r})", ("res", "i32"))
         if name in ("unwrap", "expect") and isinstance(rt, tuple) and rt[0] in ("opt", "res"):
             n = self.fresh("t"); pre.append(("bind", n, r)); return (n, rt[1])
+        if name in ("unwrap_or", "unwrap_or_else") and isinstance(rt, tuple) and rt[0] == "opt" and rt[1] != "?" and len(args) == 1:
+            # `o.unwrap_or(e)` (eager `e`: its checks come first, like any argument) / `o.unwrap_or_else(f)` for a translated `f`
+            # without arguments that cannot panic (lazy: a panicking default could not be hoisted)
+            if name == "unwrap_or":
+                d, dt = self.expr(args[0], env, pre, rt[1])
+            else:
+                if not (args[0][0] == "path" and len(args[0][1]) == 1): raise Unsupported("unwrap_or_else with a closure")
+                pre2 = []
+                d, dt = self.unit.call(self, args[0][1][0], [], env, pre2)
+                if pre2: raise Unsupported("unwrap_or_else with a default that can panic")
+            d, dt = self.coerce(d, dt, rt[1])
+            return (f"(match {r} with | some v => v | none => {d})", rt[1])
         if name == "checked_add_signed" and rt == "datetime" and len(args) == 1:
             a, at = self.expr(args[0], env, pre)
             if at != "duration": raise Unsupported("checked_add_signed argument")
@@ -1439,6 +1632,37 @@ class Unit:
             return (call, rty)
         raise Unsupported(f"call of {name}")
 
+    def record_getter(self, struct, name):
+        """`fn name(&self) -> &T { &self.f }` (possibly through `*` / `as_ref()` / `clone()`): the field `f`"""
+        info = RECS.get(struct)
+        if info is None: return None
+        try:
+            d = self.sources(info["file"]).parse_fn(name, struct)
+        except Unsupported:
+            return None
+        if [p for p, _ in d["params"]] != ["self"] or d["body"][1]: return None
+        e = d["body"][2]
+        while e is not None and (e[0] == "paren" or (e[0] == "unary" and e[1] in ("&", "*", "&mut")) or (e[0] == "mcall" and e[2] in ("as_ref", "clone", "as_str") and not e[4])):
+            e = e[1] if e[0] in ("paren", "mcall") else e[2]
+        if e is not None and e[0] == "field" and e[1] == ("path", ["self"]) and e[2] in info["fields"]: return e[2]
+        return None
+
+    def record_setter(self, struct, name):
+        """`fn name(&mut self, value: T) -> &mut Self { self.f = value; self }`: the field `f`"""
+        info = RECS.get(struct)
+        if info is None: return None
+        try:
+            d = self.sources(info["file"]).parse_fn(name, struct)
+        except Unsupported:
+            return None
+        ps = [p for p, _ in d["params"]]
+        if len(ps) != 2 or ps[0] != "self": return None
+        st, tl = d["body"][1], d["body"][2]
+        if len(st) == 1 and st[0][0] == "assign" and st[0][2] == "=" and st[0][1][0] == "field" and st[0][1][1] == ("path", ["self"]) \
+                and st[0][3] == ("path", [ps[1]]) and tl in (None, ("path", ["self"])) and st[0][1][2] in info["fields"]:
+            return st[0][1][2]
+        return None
+
     def extern_method(self, fn, recv, name, args):
         """`<param>.getter()` declared as an input of the fragment"""
         if recv[0] == "path" and len(recv[1]) == 1:
@@ -1529,15 +1753,22 @@ def compile_fn(unit, lean_name, decl, params_override=None, doc=""):
                     if isinstance(t, tuple) and t[0] == "opaque": continue
                     n = fn.fresh(f); env["self." + f] = (n, t); params.append((n, t))
             continue
-        t = pt if isinstance(pt, str) or pt[0] in ("list", "opt", "enum") else fn.conv_type(pt)
+        if pn in unit.spec.get("param_subst", {}):
+            for sn, st_ in unit.spec["param_subst"][pn]:
+                n = fn.fresh(sn); env[sn] = (n, st_); params.append((n, st_))
+            continue
+        t = pt if isinstance(pt, str) or pt[0] in ("list", "opt", "enum", "rec", "map") else fn.conv_type(pt)
         if isinstance(t, tuple) and t[0] == "opt" and t[1] == "str": pass
         n = fn.fresh(pn); env[pn] = (n, t); params.append((n, t))
         if isinstance(t, tuple) and t[0] == "obj": fn.obj_vars.add(pn)
+    if unit.spec.get("mut_self"):
+        fn.state_fields = [f for f in unit.sources(unit.spec["file"]).struct_fields(unit.spec["self_type"]) if ("self." + f) in env]
     fn.ret_ty = fn.conv_type(decl["ret"]) if decl.get("ast") else decl["ret"] if isinstance(decl["ret"], (str,)) or (isinstance(decl["ret"], tuple) and decl["ret"][0] in ("opt", "tuple", "list", "enum")) else fn.conv_type(decl["ret"])
+    unit_ret = fn.ret_ty == "unit" or (isinstance(fn.ret_ty, tuple) and fn.ret_ty[0] == "opaque" and fn.ret_ty[1] == "Self")
     def k(env2, v):
-        if v is None: return ("ret", "()")
+        if v is None or (fn.state_fields and unit_ret): return ("ret", fn.pack(env2, None))
         t, ty = fn.coerce(v[0], v[1], fn.ret_ty)
-        return ("ret", t)
+        return ("ret", fn.pack(env2, t))
     mutrefs = decl.get("mutrefs") or []
     if mutrefs:
         # a function with one `&mut` parameter and no value: state passing, the result is the final value of that parameter
@@ -1547,6 +1778,9 @@ def compile_fn(unit, lean_name, decl, params_override=None, doc=""):
         def k(env2, v):
             if v is not None: raise Unsupported("value at the end of a function with a `&mut` parameter")
             return ("ret", env2[fn.mutret][0])
+    if fn.state_fields:
+        if mutrefs: raise Unsupported("a `&mut self` method with another `&mut` parameter")
+        env["self"] = ("()", ("opaque", "Self"))      # `self` as the tail of a builder-style method: no value
     first_aux = len(unit.aux)
     tree = fn.lower_block(decl["body"], env, k)
     auxs = unit.aux[first_aux:]
@@ -1568,9 +1802,14 @@ def compile_fn(unit, lean_name, decl, params_override=None, doc=""):
                        + a["fn"].emit(a["tree"], amon, 1) + "\n\n")
     emit_aux(lean_name)
     out = "".join(out)
-    ps, rt, mon = fn_signature(fn, params, fn.ret_ty, tree, unit.extra_params, nF, nC)
+    full_ret = fn.ret_ty
+    if fn.state_fields:
+        tys = [env["self." + f][1] for f in fn.state_fields] + ([] if unit_ret else [fn.ret_ty])
+        full_ret = tys[0] if len(tys) == 1 else ("tuple", tys)
+    ps, rt, mon = fn_signature(fn, params, full_ret, tree, unit.extra_params, nF, nC)
     body = fn.emit(tree, mon, 1)
-    SIGS[lean_name] = {"F": nF, "C": nC, "mon": mon, "extra": sorted(unit.extra_params), "abs": abstract_params(unit)}
+    SIGS[lean_name] = {"F": nF, "C": nC, "mon": mon, "extra": sorted(unit.extra_params), "abs": abstract_params(unit),
+                       "plain": not (nF or nC or mon or unit.extra_params or abstract_params(unit))}
     sigline = ""
     if unit.spec.get("emit_sig"):
         sigline = "-- SIG " + json.dumps({"mon": mon, "extra": sorted(unit.extra_params), "abs": abstract_params(unit)}, ensure_ascii=False) + "\n"
@@ -1599,6 +1838,24 @@ def t_enum(lean_name, file, enum):
         vs = sources(file).enum_variants(enum)
         return (f"/-- translated from `{file}` enum `{enum}`: the variant tags, in declaration order -/\n"
                 f"inductive {lean_name} where\n" + "".join(f"  | {v}\n" for v in vs) + "  deriving DecidableEq, Repr\n")
+    return (lean_name, build)
+
+
+RECS = {}        # struct translated as a Lean structure -> {"file", "fields": {name: type}}
+
+
+def t_record(struct, file):
+    """a plain struct as a Lean structure `<struct>_rec` (field order of the declaration)"""
+    lean_name = struct + "_rec"
+    def build(sources):
+        unit = Unit({"file": file}, sources)
+        fn = Fn(unit, unit.src, lean_name)
+        fields = {f: fn.conv_type(t) for f, t in sources(file).struct_fields(struct).items()}
+        for f, t in fields.items():
+            if isinstance(t, tuple) and t[0] == "opaque": raise Unsupported(f"field {f} of {struct}: type outside the fragment")
+        RECS[struct] = {"file": file, "fields": fields}
+        return (f"/-- translated from `{file}` struct `{struct}` -/\nstructure {lean_name} where\n"
+                + "".join(f"  {f} : {lean_type(t)}\n" for f, t in fields.items()) + "  deriving DecidableEq, Repr\n")
     return (lean_name, build)
 
 
@@ -1754,8 +2011,9 @@ def date_guard_fragment():
                 return (len(e) == 2 and e[0] == "path" and e[1] == ["excel_to_date_time_object_checked"]) or any(mentions(x) for x in e)
             return False
         idx = [i for i, st in enumerate(stmts) if mentions(st)]
-        if len(idx) != 1 or mentions(tail): raise Unsupported("format_as_date: the statement that converts the serial")
-        body = ("block", list(stmts[idx[0]:]), tail)
+        if not idx and tail is not None and mentions(tail): body = ("block", [], tail)          # the conversion is the scrutinee of the tail expression
+        elif len(idx) != 1 or mentions(tail): raise Unsupported("format_as_date: the statement that converts the serial")
+        else: body = ("block", list(stmts[idx[0]:]), tail)
         return compile_fn(unit, "format_as_date_tail", {"params": [("value", "f64"), ("format", "str")], "ret": "str", "body": body},
                           doc=f"translated from `{file}` fn `format_as_date`: from the statement that calls `excel_to_date_time_object_checked` to the end "
                               "(`f64_to_string` = `f64::to_string`, `chrono_format` = `NaiveDateTime::format(..).to_string()`, `none` = it panics)")
@@ -1790,6 +2048,8 @@ COORD = "src/helper/coordinate.rs"
 CRYPT = "src/helper/crypt.rs"
 RAW = "src/structs/cell_raw_value.rs"
 CV = "src/structs/cell_value.rs"
+NFMT = "src/structs/numbering_format.rs"
+NFMTS = "src/structs/numbering_formats.rs"
 
 TARGETS = [
     # C18
@@ -1841,6 +2101,16 @@ TARGETS = [
     t_let_literals("crypt_encrypt_literals", CRYPT, [("encrypt_parts", v) for v in
                    ("package_hash_algorithm", "package_hash_size", "package_block_size", "key_hash_algorithm", "key_hash_size", "key_block_size",
                     "key_spin_count", "key_key_bits", "package_cipher_algorithm", "package_cipher_chaining", "key_cipher_algorithm", "key_cipher_chaining")]),
+    # C05: number-format id allocation (state passing for `&mut self`; the HashMap is the list of its entries in iteration order)
+    t_record("NumberingFormat", NFMT),
+    t_fn("numbering_formats_set_numbering_format", NFMTS, "set_numbering_format", self_type="NumberingFormats", mut_self=True,
+         records={"NumberingFormat": NFMT}),
+    t_fn("numbering_formats_set_style", NFMTS, "set_style", self_type="NumberingFormats", mut_self=True, records={"NumberingFormat": NFMT},
+         param_subst={"style": [("style_numbering_format", ("opt", ("rec", "NumberingFormat")))]},
+         extern_getters={("style", "get_numbering_format"): ("style_numbering_format", ("opt", ("rec", "NumberingFormat")))},
+         extern_methods={("rec", "get_hash_code"): ("get_hash_code", [], "str", False)},
+         self_methods={"set_numbering_format": ("numbering_formats_set_numbering_format", [("rec", "NumberingFormat")])},
+         local_types={"id": "u32"}, narrowing_casts=True),
     t_let_literals("crypt_protection_literals", CRYPT, [(f, v) for f in ("encrypt_sheet_protection", "encrypt_workbook_protection", "encrypt_revisions_protection")
                                                         for v in ("key_hash_algorithm", "key_spin_count")]),
 ]
@@ -1923,11 +2193,13 @@ def main():
             txt = m.group(1) if m else None
             if txt is not None:
                 hd = re.search(r"^def " + re.escape(name) + r"\b([^\n]*)", txt, re.M)
-                if hd: SIGS[name] = {"F": "[RFloat F]" in hd.group(1), "C": "(C : Chrono)" in hd.group(1), "mon": None}
+                if hd: SIGS[name] = {"F": "[RFloat F]" in hd.group(1), "C": "(C : Chrono)" in hd.group(1), "mon": None,
+                                     "plain": "[RFloat F]" not in hd.group(1) and "(C : Chrono)" not in hd.group(1) and "→" not in hd.group(1).split(" : ")[0] and ": Option" not in hd.group(1)}
                 sg = re.search(r"^-- SIG (.*)$", txt, re.M)
                 if hd and sg:
                     sj = json.loads(sg.group(1))
                     SIGS[name].update({"mon": sj["mon"], "extra": [tuple(x) for x in sj["extra"]], "abs": sj.get("abs", [])})
+                    if sj["mon"] or sj["extra"] or sj.get("abs"): SIGS[name]["plain"] = False
             fallbacks.append({"function": name, "reason": (type(ex).__name__ + ": " + str(ex))[:200], "snapshot_kept": bool(m)})
         if txt is not None:
             parts.append(f"-- BEGIN {name}\n{txt}-- END {name}\n")
